@@ -102,7 +102,7 @@ def c01(ctx):
     o, _, _ = run_tlc(ctx, "Gen_Civil", env={"WHICH": "C01", "OUT": cases})
     mism = ctx.path("mism.ndjson")
     s = harness_json(["replay", "--cases", cases, "--out", mism])
-    cases_to_violations(ctx, s, mism, lambda c: "C01." + c["op"])
+    cases_to_violations(ctx, s, mism, lambda c: "C01." + c["op"][2:])
     ndays = 1 << 32
     ctx.extra["distinct_inputs"] = {"day_numbers": ndays, "triples": r2["clauses"].get("C01.triple_value", {}).get("checked", 0)
                                     + r2["clauses"].get("C01.triple_refused", {}).get("checked", 0),
@@ -134,7 +134,7 @@ def c02(ctx):
     run_tlc(ctx, "Gen_Civil", env={"WHICH": "C02", "OUT": cases})
     mism = ctx.path("mism.ndjson")
     s = harness_json(["replay", "--cases", cases, "--out", mism])
-    cases_to_violations(ctx, s, mism, lambda c: "C02." + c["op"])
+    cases_to_violations(ctx, s, mism, lambda c: "C02." + c["op"][2:])
     ctx.distinct = range(1 << 32)
     return finish(ctx, rule="every 32-bit day number: weekday() and day_of_year() against the TLC-generated cycle table; "
                   "format fields w q e eeeeeee D on every 37th day (quick) / every day (thorough); set_day_of_year(0..367) "
@@ -142,6 +142,190 @@ def c02(ctx):
                   "sampled observations incl. ww qq DDD ee eeeeeeee judged by TLC. distinct_nontrivial = distinct day numbers swept.",
                   trusted=["harness: table lookup + 400-year extension (re-validated by TLC on every run)",
                            "Date::from_timestamp is used to reach a day number"])
+
+
+# ---------------------------------------------------------------------------------------------
+# Value-algebra properties (C03-C10, C15): one generic pipeline
+#   spec sanity (MC_* small-instance / calendar models)  ->  channel A (Gen_Ops grids replayed)
+#   ->  channel B (recorded sessions validated stepwise by Trace_Session)
+# ---------------------------------------------------------------------------------------------
+OPS = {
+    # pid: scenario, MC models (module, quick cfg, full cfg), generator shards, events quick/thorough, trace shards q/t
+    "C03": dict(scen="c03", mc=[("MC_TimeLine", "MC_TimeLine_dt_quick", "MC_TimeLine_dt_full")], gshards=1, ev=(120000, 1200000), ts=(10, 40)),
+    "C04": dict(scen="c04", mc=[("MC_TimeLine", "MC_TimeLine_dt_quick", "MC_TimeLine_dt_full")], gshards=4, ev=(160000, 1600000), ts=(10, 40)),
+    "C05": dict(scen="c05", mc=[("MC_Months", "MC_Months_quick", "MC_Months_full")], gshards=10, ev=(60000, 600000), ts=(8, 30)),
+    "C06": dict(scen="c06", mc=[("MC_TimeLine", "MC_TimeLine_dt_quick", "MC_TimeLine_dt_full")], gshards=10, ev=(160000, 1600000), ts=(10, 40)),
+    "C07": dict(scen="c07", mc=[("MC_Months", "MC_Months_quick", "MC_Months_full")], gshards=10, ev=(60000, 600000), ts=(8, 30)),
+    "C08": dict(scen="c08", mc=[("MC_TimeLine", "MC_TimeLine_time_quick", "MC_TimeLine_time_full")], gshards=1, ev=(160000, 1600000), ts=(10, 40)),
+    "C09": dict(scen="c09", mc=[("MC_TimeLine", "MC_TimeLine_dt_quick", "MC_TimeLine_dt_full")], gshards=10, ev=(120000, 1200000), ts=(10, 40)),
+    "C15": dict(scen="c15", mc=[("MC_TimeLine", "MC_TimeLine_dt_quick", "MC_TimeLine_dt_full"), ("MC_Civil", "MC_Civil_quick", "MC_Civil_full")],
+                gshards=1, ev=(120000, 1200000), ts=(10, 40)),
+    "C10": dict(scen="c10", mc=[("MC_TimeLine", "MC_TimeLine_dt_quick", "MC_TimeLine_dt_full")], gshards=2, ev=(120000, 1200000), ts=(10, 40)),
+}
+
+
+def mag_class(w):
+    """coarse magnitude class of a wide argument (number of base-1000 limbs)"""
+    if isinstance(w, dict) and "mag" in w:
+        return ("-" if w.get("neg") else "+") + str(len(w["mag"]))
+    return ""
+
+
+def event_key(e, res):
+    return (e.get("op"), e.get("u") or e.get("f") or "", res.get("k"), mag_class(e.get("n")) or mag_class(e.get("v"))
+            or mag_class(e.get("secs")) or mag_class(e.get("ts")))
+
+
+def gen_cases(ctx, module, which, shards, cfg=None):
+    """Channel A: TLC generates the case family `which` in `shards` parallel processes."""
+    from concurrent.futures import ThreadPoolExecutor
+    outs = [ctx.path("cases-%s-%d.ndjson" % (which, k)) for k in range(shards)]
+
+    def one(k):
+        o, _, _ = run_tlc(ctx, module, cfg, env={"WHICH": which, "TIER": ctx.tier, "SHARD": k, "NSHARDS": shards,
+                                                 "OUT": outs[k]}, timeout=1500)
+        return o
+    with ThreadPoolExecutor(max_workers=min(shards, 10)) as ex:
+        list(ex.map(one, range(shards)))
+    allp = ctx.path("cases-%s.ndjson" % which)
+    with open(allp, "w") as w:
+        for o in outs:
+            if os.path.exists(o):
+                w.write(open(o).read())
+    return allp
+
+
+def replay_cases(ctx, cases, profile="release"):
+    mism = cases + ".mism"
+    s = harness_json(["replay", "--cases", cases, "--out", mism], profile=profile)
+    ctx.evaluations += s["cases"]
+    for smp in s.get("samples", [])[:2]:
+        ctx.sample(smp)
+    for c in read_ndjson(cases)[::7]:
+        for ex in c.get("exp", [])[:1]:
+            ctx.distinct.add(event_key(c, ex))
+    for m in read_ndjson(mism):
+        c = m["case"]
+        ctx.violations.append({"clause": "%s.%s%s" % (ctx.pid, c["op"], ("." + (c.get("u") or c.get("f"))) if (c.get("u") or c.get("f")) else ""),
+                               "class": c["op"], "witness": {"case": c, "observed": m["observed"], "profile": profile}})
+    return s
+
+
+def record_and_validate(ctx, scenario, events, shards, profile="release", module="Trace_Session", seed_base=0):
+    """Channel B: record `shards` sessions in parallel, validate each with TLC (the spec carries the registers)."""
+    from concurrent.futures import ThreadPoolExecutor
+    per = max(events // shards, 1000)
+    traces = [ctx.path("sess-%s-%s-%d.ndjson" % (scenario, profile, k)) for k in range(shards)]
+    seeds = [ctx.seed * 100003 + seed_base + k for k in range(shards)]
+
+    def rec(k):
+        return harness_json(["record", "--scenario", scenario, "--out", traces[k], "--n", per], profile=profile,
+                            env_extra={"VERIF_SEED": seeds[k]})
+    build_harness(profile)
+    with ThreadPoolExecutor(max_workers=8) as ex:
+        list(ex.map(rec, range(shards)))
+    total, bad = parallel_validate(ctx, module, traces, jobs=10)
+    ctx.evaluations += total
+    for t in traces[:2]:
+        for e in read_ndjson(t)[5:4000:1777]:
+            ctx.sample(e)
+    for t in traces:
+        with open(t) as fh:
+            for line in fh:
+                e = json.loads(line)
+                ctx.distinct.add(event_key(e, e.get("res", {})))
+    # map bad events to the shard they came from (for replay)
+    index = {}
+    for k, t in enumerate(traces):
+        index[t] = k
+    for b in bad:
+        e = b["event"]
+        uf = e.get("u") or e.get("f")
+        ctx.violations.append({"clause": "%s.%s%s" % (ctx.pid, e["op"], ("." + uf) if uf else ""), "class": e["op"],
+                               "witness": {"scenario": scenario, "profile": profile, "n": per, "event": e,
+                                           "expected": b["expected"], "seeds": seeds}})
+    ctx.last_traces = traces
+    ctx.last_seeds = seeds
+    ctx.last_per = per
+    return total
+
+
+def bounds_validate(ctx, scenario):
+    """C15, range-statement clause: the error texts logged in the recorded sessions, judged by Trace_Bounds."""
+    from concurrent.futures import ThreadPoolExecutor
+
+    def one(t):
+        return validate_trace(ctx, "Trace_Bounds", t, timeout=1500)
+    with ThreadPoolExecutor(max_workers=10) as ex:
+        res = list(ex.map(one, ctx.last_traces))
+    judged = 0
+    for n, bad in res:
+        judged += n
+        for b in bad:
+            e = b["event"]
+            ctx.violations.append({"clause": "C15.range_text.%s" % e["op"], "class": e["op"],
+                                   "witness": {"scenario": scenario, "profile": "release", "n": ctx.last_per, "event": e,
+                                               "stated": b["stated"], "seeds": ctx.last_seeds, "validator": "Trace_Bounds"}})
+    ctx.extra["error_texts_judged"] = judged
+    ctx.evaluations += judged
+
+
+def ops_check(ctx):
+    cfg = OPS[ctx.pid]
+    build_harness()
+    for (mod, q, f) in cfg["mc"]:
+        model_check(ctx, mod, f if ctx.thorough else q, workers=8, timeout=3000, heap="6g")
+    cases = gen_cases(ctx, "Gen_Ops", ctx.pid, cfg["gshards"], cfg="Gen_Ops")
+    replay_cases(ctx, cases)
+    ev = cfg["ev"][1 if ctx.thorough else 0]
+    sh = cfg["ts"][1 if ctx.thorough else 0]
+    record_and_validate(ctx, cfg["scen"], ev, sh)
+    if ctx.pid == "C15":
+        bounds_validate(ctx, cfg["scen"])
+    if ctx.thorough:
+        # what a release user gets: overflow checks off, arithmetic slips become wrong values instead of panics
+        replay_cases(ctx, cases, profile="nochecks")
+        record_and_validate(ctx, cfg["scen"], ev // 4, max(sh // 4, 2), profile="nochecks", seed_base=5000)
+    return finish(ctx, rule="channel A: every case of the TLC-generated grid Gen_Ops/%s replayed on the real code and compared "
+                  "with the outcome set Ops!Allowed; channel B: random boundary-dense sessions (scenario %s) recorded from the "
+                  "real code and validated event by event by Trace_Session, the specification carrying the register values. "
+                  "distinct_nontrivial = distinct (operation, unit/field, outcome kind, argument magnitude class) combinations "
+                  "among the generated cases (every 7th sampled) and all recorded events." % (ctx.pid, cfg["scen"]),
+                  trusted=["harness: construction of operands through public constructors (from_timestamp, add_nanos, set_offset, "
+                           "from_nanos) and projection through timestamp()/nano()/get_offset()/as_nanos()"])
+
+
+for _pid in OPS:
+    CHECKS[_pid] = ops_check
+
+
+def replay_ops(ctx, rp):
+    w = rp["witness"]
+    build_harness(w.get("profile", "release"))
+    if "case" in w:
+        cases = ctx.path("case.ndjson")
+        write_ndjson(cases, [w["case"]])
+        replay_cases(ctx, cases, profile=w.get("profile", "release"))
+        return
+    # a session event: re-record the deterministic session it came from and re-validate it
+    scenario, per = w["scenario"], w["n"]
+    target = w["event"]
+    for sd in w["seeds"]:
+        t = ctx.path("replay-%d.ndjson" % sd)
+        harness_json(["record", "--scenario", scenario, "--out", t, "--n", per], profile=w.get("profile", "release"),
+                     env_extra={"VERIF_SEED": sd})
+        evs = read_ndjson(t)
+        i = target.get("i")
+        same = i is not None and i < len(evs) and all(evs[i].get(k) == target.get(k) for k in target if k not in ("res",))
+        if not same:
+            continue
+        n, bad = validate_trace(ctx, w.get("validator", "Trace_Session"), t)
+        for b in bad:
+            if b["event"].get("i") == i:
+                ctx.violations.append({"clause": "%s.%s" % (ctx.pid, b["event"]["op"]), "class": b["event"]["op"],
+                                       "witness": {"event": b["event"], "expected": b.get("expected", b.get("stated"))}})
+        return
+    raise ToolError("could not locate the recorded session of this replay file")
 
 
 def replay_civil(ctx, rp):
@@ -172,6 +356,8 @@ def replay_civil(ctx, rp):
 
 
 REPLAYERS = {"C01": replay_civil, "C02": replay_civil}
+for _pid in OPS:
+    REPLAYERS[_pid] = replay_ops
 
 
 def main():
